@@ -331,6 +331,91 @@ impl<'a, W: Write> Run<'a, W> {
         seen.len() as u64
     }
 
+    /// Reference model count (independent of src/sat.rs): number of assignments to variables 1..=n satisfying the handle, by a
+    /// post-order walk over the stored nodes with exact arithmetic; None if a variable above n (or a malformed node) occurs.
+    fn ref_satcount(&self, r: Ref, n: u32) -> Option<num_bigint::BigUint> {
+        use num_bigint::BigUint;
+        let cap = self.bdd.storage().capacity();
+        let total: BigUint = BigUint::from(1u32) << (n as usize);
+        let mut memo: HashMap<u32, BigUint> = HashMap::new(); // count of the REGULAR handle of a node, over all n variables
+        memo.insert(1, total.clone());
+        let mut stack: Vec<(u32, bool)> = vec![(r.index(), false)];
+        let mut guard = 0usize;
+        while let Some((i, expanded)) = stack.pop() {
+            guard += 1;
+            if guard > 4_000_000 || i == 0 || (i as usize) >= cap {
+                return None;
+            }
+            if memo.contains_key(&i) {
+                continue;
+            }
+            let (lo, hi) = (self.bdd.low(i), self.bdd.high(i));
+            if self.bdd.variable(i) == 0 || self.bdd.variable(i) > n {
+                return None;
+            }
+            if !expanded {
+                stack.push((i, true));
+                stack.push((lo.index(), false));
+                stack.push((hi.index(), false));
+                continue;
+            }
+            let get = |x: Ref, memo: &HashMap<u32, BigUint>| -> Option<BigUint> {
+                let c = memo.get(&x.index())?.clone();
+                Some(if x.is_negated() { &total - c } else { c })
+            };
+            let c = (get(lo, &memo)? + get(hi, &memo)?) >> 1usize;
+            memo.insert(i, c);
+        }
+        let c = memo.get(&r.index())?.clone();
+        Some(if r.is_negated() { &total - c } else { c })
+    }
+
+    /// The DOT text against the stored nodes themselves (any number of variables): every declared node carries the variable
+    /// and the two edges the store holds for it, the declared nodes are exactly the reachable ones, every root edge names its
+    /// handle.  (target 0 = the constant false = complemented terminal.)
+    fn dot_structure_check(&self, text: &str, roots: &[Ref]) -> Result<(), String> {
+        let g = crate::export::dot_parse(text)?;
+        let norm = |tgt: u32, neg: bool| -> (u32, bool) { if tgt == 0 { (1, !neg) } else { (tgt, neg) } };
+        let mut rd = g.root_decl.clone();
+        rd.sort();
+        if rd != (0..roots.len()).collect::<Vec<_>>() {
+            return Err(format!("root declarations {:?}, expected 0..{}", rd, roots.len()));
+        }
+        for (i, r) in roots.iter().enumerate() {
+            let e = g.roots.get(&i).filter(|l| l.len() == 1).ok_or_else(|| format!("root {} does not have exactly one edge", i))?[0];
+            if norm(e.0, e.1) != (r.index(), r.is_negated()) {
+                return Err(format!("root {} is drawn to {}{} but the handle is {}", i, if e.1 { "~" } else { "" }, e.0, r));
+            }
+        }
+        let reach: HashSet<u32> = self.bdd.descendants(roots.iter().copied());
+        let mut d2 = g.declared.clone();
+        d2.sort();
+        let mut r2: Vec<u32> = reach.iter().copied().filter(|&i| i != 1).collect();
+        r2.sort();
+        if d2 != r2 {
+            let extra: Vec<&u32> = d2.iter().filter(|x| !r2.contains(x)).take(5).collect();
+            let missing: Vec<&u32> = r2.iter().filter(|x| !d2.contains(x)).take(5).collect();
+            return Err(format!("declared nodes differ from the reachable ones (declared but unreachable {:?}, reachable but undeclared {:?})", extra, missing));
+        }
+        for &id in &g.declared {
+            let v = *g.var.get(&id).unwrap();
+            if v != self.bdd.variable(id) {
+                return Err(format!("node {} is labelled x{} but its variable is x{}", id, v, self.bdd.variable(id)));
+            }
+            let h = g.high.get(&id).filter(|l| l.len() == 1).ok_or_else(|| format!("node {} does not have exactly one then-edge", id))?[0];
+            let hi = self.bdd.high(id);
+            if (h, false) != (hi.index(), hi.is_negated()) {
+                return Err(format!("node {}: then-edge drawn to {} but the stored edge is {}", id, h, hi));
+            }
+            let (l, ln) = g.low.get(&id).filter(|l| l.len() == 1).ok_or_else(|| format!("node {} does not have exactly one else-edge", id))?[0];
+            let lo = self.bdd.low(id);
+            if norm(l, ln) != (lo.index(), lo.is_negated()) {
+                return Err(format!("node {}: else-edge drawn to {}{} but the stored edge is {}", id, if ln { "~" } else { "" }, l, lo));
+            }
+        }
+        Ok(())
+    }
+
     fn fingerprint(&self) -> (usize, usize, usize, u64) {
         let s = self.bdd.storage();
         let cap = s.capacity();
@@ -1201,6 +1286,16 @@ impl<'a, W: Write> Run<'a, W> {
                 }
             }
             "satcount" => {
+                if let Some(fr) = self.fetch(t[1]) {
+                    let n: u32 = t[2].parse().unwrap();
+                    if n <= 100_000 {
+                        if let Some(want) = self.ref_satcount(fr, n) {
+                            if want.to_string() != val {
+                                self.oracle_fail("C13", &format!("{} = {}, a recount over the stored nodes gives {}", t.join(" "), val, want));
+                            }
+                        }
+                    }
+                }
                 if let (Some(f), Some(_)) = (self.fetch_tt(t[1]), self.fetch(t[1])) {
                     let n: u32 = t[2].parse().unwrap();
                     let sup = c.support(f);
@@ -1280,6 +1375,11 @@ impl<'a, W: Write> Run<'a, W> {
             }
             "dot" => {
                 let k: usize = t[1].parse().unwrap();
+                if let Some(roots) = self.fetch_all(&t[2..2 + k]) {
+                    if let Err(e) = self.dot_structure_check(val, &roots) {
+                        self.oracle_fail("C16", &format!("dot {}: the text does not describe the stored diagram: {}", k, e));
+                    }
+                }
                 let want: Option<Vec<TT>> = (0..k).map(|i| self.fetch_tt(t[2 + i])).collect();
                 if let (Some(want), Some(roots)) = (want, self.fetch_all(&t[2..2 + k])) {
                     let reach: HashSet<u32> = self.bdd.descendants(roots.iter().copied());
@@ -1341,13 +1441,29 @@ impl<'a, W: Write> Run<'a, W> {
                     } else {
                         writeln!(self.out, "panic other {}", msg.replace('\n', " ")).unwrap();
                         if self.oracle {
-                            let prop = match t[0] {
-                                "itec" | "implies" => "C12",
-                                "ite" => "C02",
-                                "gc" => "C05",
-                                _ => "C02",
+                            let props: &[&str] = match t[0] {
+                                "itec" | "implies" => &["C12"],
+                                "ite" => &["C02"],
+                                "gc" => &["C05", "C06"],
+                                "and" | "or" | "xor" | "eq" | "imply" | "not" | "andmany" | "ormany" | "expr" => &["C03", "C02"],
+                                "subst" | "substm" | "cofcube" | "low" | "high" | "topcof0" | "topcof1" => &["C08"],
+                                "compose" => &["C09"],
+                                "constrain" => &["C10"],
+                                "restrict" => &["C11"],
+                                "satcount" => &["C13"],
+                                "onesat" | "paths" => &["C14"],
+                                "const" | "var" | "node" | "cube" | "clause" => &["C15", "C17"],
+                                "size" => &["C04", "C16"],
+                                "desc" | "bracket" | "dot" | "dump" => &["C16"],
+                                _ => &["C02"],
                             };
-                            self.oracle_fail(prop, &format!("{} panicked: {}", t.join(" "), msg.replace('\n', " ")));
+                            let mut shown: Vec<&str> = t.iter().take(12).copied().collect();
+                            if t.len() > 12 {
+                                shown.push("...");
+                            }
+                            for prop in props {
+                                self.oracle_fail(prop, &format!("{} panicked: {}", shown.join(" "), msg.replace('\n', " ")));
+                            }
                         }
                     }
                     break;
